@@ -7,6 +7,7 @@ import (
 	"go/types"
 	"os"
 	"sort"
+	"strconv"
 	"strings"
 
 	"npverif/internal/core"
@@ -59,43 +60,12 @@ func formatterFuncs(p *core.Program) []*core.FuncDecl {
 // Frozen table of the early exits / skips that exist in the formatting layer
 // today, each with the reason why nothing computed is dropped.
 var formatExitAllowed = map[string]string{
-	"netpol/connlist.(*formatMD).writeOutput: early return #1":              "no exposure section without the flag: returns the complete connlist part",
-	"netpol/connlist.(*formatText).writeOutput: early return #1":            "no exposure section without the flag: returns the complete connlist part",
-	"netpol/connlist.(singleConnFields).exposureString: early return #1":    "alternative rendering (ingress line puts the exposed peer first); all three fields in both",
-	"netpol/connlist.ValidateOutputFormat: early return #1":                 "format validation, not a row path",
-	"netpol/connlist.formExposureItemAsSingleConnFiled: early return #1":    "alternative rendering of the other end (entire-cluster vs labels); same connection",
-	"netpol/connlist.formSingleExposureConn: early return #1":               "alternative orientation (ingress: src is the potential peer); same fields",
-	"netpol/connlist.getExposureEdgeLine: early return #1":                  "alternative orientation of the dot edge; same connection",
-	"netpol/connlist.getMDHeader: early return #1":                          "alternative column order (orientation parity is rule C09-orient)",
-	"netpol/connlist.getMDLine: early return #1":                            "alternative column order (orientation parity is rule C09-orient)",
-	"netpol/connlist.getMdSubSectionHeader: early return #1":                "alternative sub-section header",
-	"netpol/connlist.getRepresentativeNamespaceString: early return #1":     "a namespace selector that is exactly the name label is printed as the namespace name",
-	"netpol/connlist.getRepresentativeNamespaceString: early return #2":     "brackets for textual formats",
-	"netpol/connlist.getRepresentativePodString: early return #1":           "brackets for textual formats",
-	"netpol/connlist.getXgressExposureEdges: continue #1":                   "placed after the emission of the entire-cluster edge (the entry has no labels to draw)",
-	"netpol/connlist.peerNameAndColorByType: early return #1":               "alternative node style for IP peers",
-	"netpol/connlist.peerNameAndColorByType: early return #2":               "alternative node style for the ingress controller",
-	"netpol/connlist.writeCsvSubSection: early return #1":                   "an empty sub-section prints no header (nothing to drop: the list is empty)",
-	"netpol/diff.(*DiffAnalyzer).ConnectivityDiffToString: early return #1": "empty diff prints the empty string (documented)",
-	"netpol/diff.(*connsPair).Dst: early return #1":                         "accessor: an added pair has only the second side (C04-b)",
-	"netpol/diff.(*connsPair).Ref1Connectivity: early return #1":            "accessor: an added pair has no first connection (C04-b)",
-	"netpol/diff.(*connsPair).Ref2Connectivity: early return #1":            "accessor: a removed pair has no second connection (C04-b)",
-	"netpol/diff.(*connsPair).Src: early return #1":                         "accessor: an added pair has only the second side (C04-b)",
-	"netpol/diff.(*diffFormatText).singleDiffLine: early return #1":         "alternative rendering with the workload annotation appended",
-	"netpol/diff.ValidateDiffOutputFormat: early return #1":                 "format validation, not a row path",
-	"netpol/diff.getNodePeerLabelAndType: early return #1":                  "alternative node label for IP peers / ingress controller",
-	"netpol/internal/common.(*ConnectionSet).String: early return #1":       "canonical rendering of the full set",
-	"netpol/internal/common.(*ConnectionSet).String: early return #2":       "canonical rendering of the empty set",
-	"netpol/internal/common.(*portRange).String: early return #1":           "a range start-end vs a single port",
-	"netpol/internal/common.ConnStrFromConnProperties: early return #1":     "canonical rendering of the full set",
-	"netpol/internal/common.ConnStrFromConnProperties: early return #2":     "canonical rendering of the empty set",
-	"netpol/internal/common.MakeConnectionSet: early return #1":             "constructor, not a row path",
+	"netpol/connlist.getXgressExposureEdges: continue #1": "placed after the emission of the entire-cluster edge (the entry has no labels to draw)",
 }
 
-// NoDropExits is the no-drop rule of C09: in the formatting layer every
-// early success exit (a non-error return that is not the function's final
-// statement) and every continue/break must be listed with its reason; a new
-// one can drop rows or parts of a row.
+// NoDropExits is the no-drop rule of C09 for loops: in the formatting layer
+// every continue/break must be listed with its reason; a new one can drop rows.
+// (Early returns are judged by ReturnCompleteness.)
 func NoDropExits(p *core.Program, r *core.Report, rule string) {
 	fns := formatterFuncs(p)
 	if len(fns) < 30 {
@@ -131,14 +101,7 @@ func NoDropExits(p *core.Program, r *core.Report, rule string) {
 			}
 			switch x := s.(type) {
 			case *ast.ReturnStmt:
-				if s == final || IsErrorReturn(p, w, fd.Obj, x, f) {
-					return
-				}
-				// a return that closes the final if/else or switch of the function is a final return too
-				if isTailPosition(fd.Decl.Body, x) {
-					return
-				}
-				emit("early return", x, f)
+				_ = final // early returns are judged by ReturnCompleteness (data flow), not by a table of positions
 			case *ast.BranchStmt:
 				if x.Tok == token.CONTINUE || (x.Tok == token.BREAK && len(w.Loops) > 0 && !inSwitchOnly(fd.Decl.Body, x)) {
 					emit(x.Tok.String(), x, f)
@@ -754,4 +717,688 @@ func SelectorRenderingLossless(p *core.Program, r *core.Report, rule string) {
 	}
 	r.RuleCounts[rule] = n
 	r.Floor(rule, 3)
+}
+
+// ---------------------------------------------------------------- return completeness (replaces the table of early returns)
+
+// returnPinTable: "function | atom (parameters by position)" -> what the atom pins and why. The entry applies only
+// on paths whose condition entails the atom.
+var returnPinTable = map[string]struct{ pins, why string }{
+	"netpol/internal/common.ConnStrFromConnProperties | b:param#0":               {"param#1", "canonical form: when the all-connections flag is set the protocols map carries nothing (C11-c / C05-c)"},
+	"netpol/internal/common.(*ConnectionSet).String | b:recv.AllowAll":           {"AllowedProtocols", "canonical form: under AllowAll the protocol map is empty (C11-c), so the constant renders the whole set"},
+	"netpol/diff.(*DiffAnalyzer).ConnectivityDiffToString | b:param#0.IsEmpty()": {"*", "documented API: an empty diff renders as the empty string in every format"},
+	"netpol/connlist.getXgressExposureEdges | !b:param#2":                        {"param#1", "an unprotected peer is exposed to the entire cluster on all connections and carries no exposure entries (C06-a: the entries are written under the protected branch only)"},
+	"netpol/connlist.getXgressExposureConnsAsSingleConnFieldsArray | !b:param#2": {"param#3", "an unprotected peer is exposed to the entire cluster on all connections and carries no exposure entries (C06-a)"},
+}
+
+func ReturnCompleteness(p *core.Program, r *core.Report, rule string) {
+	fns := formatterFuncs(p)
+	if len(fns) < 30 {
+		r.Add(rule, "formatting layer", "-", core.Undecided, fmt.Sprintf("only %d functions reachable from the formatter entries", len(fns)))
+		return
+	}
+	// fields of its receiver that a method reads (transitively through methods called on the receiver)
+	methodReads := map[*types.Func]map[string]bool{}
+	var readsOf func(fn *types.Func, depth int) map[string]bool
+	readsOf = func(fn *types.Func, depth int) map[string]bool {
+		if m, ok := methodReads[fn]; ok {
+			return m
+		}
+		out := map[string]bool{}
+		methodReads[fn] = out
+		fd := p.ByObj[fn]
+		if fd == nil || depth > 3 {
+			out["*"] = true
+			return out
+		}
+		sig := fn.Type().(*types.Signature)
+		recv := sig.Recv()
+		if recv == nil {
+			return out
+		}
+		info := fd.Pkg.TypesInfo
+		ast.Inspect(fd.Decl.Body, func(n ast.Node) bool {
+			switch x := n.(type) {
+			case *ast.SelectorExpr:
+				if id, ok := ast.Unparen(x.X).(*ast.Ident); ok && info.ObjectOf(id) == recv {
+					if core.FieldOf(info, x) != nil {
+						out[x.Sel.Name] = true
+					} else if callee, isF := info.ObjectOf(x.Sel).(*types.Func); isF {
+						for k := range readsOf(callee, depth+1) {
+							out[k] = true
+						}
+					}
+				}
+			case *ast.Ident:
+				// the receiver used as a whole (passed on, compared, ...)
+				_ = x
+			}
+			return true
+		})
+		return out
+	}
+	configRecv := map[string]bool{"ConnlistAnalyzer": true, "DiffAnalyzer": true}
+	for _, e := range FormatterEntries(p) {
+		configRecv[core.RecvTypeName(e.Obj.Type().(*types.Signature))] = true
+	}
+	pinTable := map[string]struct{ pins, why string }{}
+	for k, v := range returnPinTable {
+		pinTable[k] = v
+	}
+	for _, e := range FormatterEntries(p) {
+		if e.Pkg.PkgPath == core.PkgConnlist {
+			pinTable[e.Key()+" | !b:param#2"] = struct{ pins, why string }{"param#1", "the exposure section exists only under the exposure flag; without the flag the analyzer computes no exposure entries"}
+		}
+	}
+	n := 0
+	for _, fd := range fns {
+		info := fd.Pkg.TypesInfo
+		sig := fd.Obj.Type().(*types.Signature)
+		if sig.Results().Len() == 0 {
+			continue
+		}
+		if b, ok := sig.Results().At(0).Type().Underlying().(*types.Basic); ok && b.Info()&types.IsBoolean != 0 {
+			continue // predicates and comparators do not render
+		}
+		if core.IsErrorType(sig.Results().At(0).Type()) {
+			continue
+		}
+		switch rt := sig.Results().At(0).Type().Underlying().(type) {
+		case *types.Basic, *types.Slice, *types.Map, *types.Struct:
+			_ = rt
+		default:
+			continue // constructors and accessors (interfaces, pointers) hand out objects, they do not render
+		}
+		// inputs
+		structParam := map[types.Object]bool{}
+		var params []*types.Var
+		if sig.Recv() != nil {
+			params = append(params, sig.Recv())
+		}
+		for i := 0; i < sig.Params().Len(); i++ {
+			params = append(params, sig.Params().At(i))
+		}
+		isInput := map[types.Object]bool{}
+		for _, v := range params {
+			isInput[v] = true
+			if v == sig.Recv() && configRecv[core.RecvTypeName(sig)] {
+				continue // fields of the formatter / analyzer object are configuration (labels, flags), not computed results
+			}
+			t := v.Type()
+			if pt, ok := t.Underlying().(*types.Pointer); ok {
+				t = pt.Elem()
+			}
+			if nt := core.NamedOf(t); nt != nil && nt.Obj().Pkg() != nil && strings.HasPrefix(nt.Obj().Pkg().Path(), core.ModPath) {
+				if _, isStruct := nt.Underlying().(*types.Struct); isStruct {
+					structParam[v] = true
+				}
+			}
+		}
+		// definitions of locals: flow-insensitive, except for the accumulating assignments (res = append(res, ..),
+		// res += ..), which are threaded along the paths below so that a return placed before one does not count it
+		defs := map[types.Object][]ast.Expr{}
+		defStmt := map[ast.Expr]*ast.AssignStmt{}
+		accum := map[*ast.AssignStmt]bool{}
+		ast.Inspect(fd.Decl.Body, func(nd ast.Node) bool {
+			switch x := nd.(type) {
+			case *ast.AssignStmt:
+				for i, l := range x.Lhs {
+					id, ok := ast.Unparen(l).(*ast.Ident)
+					if ok && len(x.Rhs) == len(x.Lhs) {
+						if o := info.ObjectOf(id); o != nil && !isInput[o] {
+							self := x.Tok == token.ADD_ASSIGN
+							ast.Inspect(x.Rhs[i], func(m ast.Node) bool {
+								if mid, isId := m.(*ast.Ident); isId && info.ObjectOf(mid) == o {
+									self = true
+								}
+								return !self
+							})
+							if self {
+								accum[x] = true
+								defStmt[x.Rhs[i]] = x
+							}
+						}
+					}
+					if !ok {
+						// store through a local (res[i] = ..., res.f = ...): the root local depends on the value
+						if root := core.RootIdent(l); root != nil && !isInput[info.ObjectOf(root)] {
+							if len(x.Rhs) == len(x.Lhs) {
+								defs[info.ObjectOf(root)] = append(defs[info.ObjectOf(root)], x.Rhs[i])
+							} else if len(x.Rhs) == 1 {
+								defs[info.ObjectOf(root)] = append(defs[info.ObjectOf(root)], x.Rhs[0])
+							}
+						}
+						continue
+					}
+					o := info.ObjectOf(id)
+					if o == nil || isInput[o] {
+						continue
+					}
+					if len(x.Rhs) == len(x.Lhs) {
+						defs[o] = append(defs[o], x.Rhs[i])
+					} else if len(x.Rhs) == 1 {
+						defs[o] = append(defs[o], x.Rhs[0])
+					}
+				}
+			case *ast.RangeStmt:
+				for _, l := range []ast.Expr{x.Key, x.Value} {
+					if id, ok := l.(*ast.Ident); ok && id.Name != "_" {
+						if o := info.ObjectOf(id); o != nil {
+							defs[o] = append(defs[o], x.X)
+						}
+					}
+				}
+			case *ast.ValueSpec:
+				for i, nm := range x.Names {
+					if i < len(x.Values) {
+						defs[info.ObjectOf(nm)] = append(defs[info.ObjectOf(nm)], x.Values[i])
+					}
+				}
+			case *ast.ExprStmt:
+				// x.WriteString(v) / b.Write(v): the receiver local depends on the arguments
+				if c, ok := x.X.(*ast.CallExpr); ok {
+					if se, isSe := ast.Unparen(c.Fun).(*ast.SelectorExpr); isSe {
+						if root := core.RootIdent(se.X); root != nil && !isInput[info.ObjectOf(root)] {
+							for _, a := range c.Args {
+								defs[info.ObjectOf(root)] = append(defs[info.ObjectOf(root)], a)
+							}
+						}
+					}
+				}
+			}
+			return true
+		})
+		curMask := -1
+		var sinkIdx map[*ast.AssignStmt]int
+		var dep func(e ast.Node, seen map[types.Object]bool, out map[string]bool)
+		dep = func(e ast.Node, seen map[types.Object]bool, out map[string]bool) {
+			if e == nil {
+				return
+			}
+			ast.Inspect(e, func(nd ast.Node) bool {
+				switch x := nd.(type) {
+				case *ast.FuncLit:
+					return true
+				case *ast.SelectorExpr:
+					if id, ok := ast.Unparen(x.X).(*ast.Ident); ok {
+						o := info.ObjectOf(id)
+						if structParam[o] {
+							if core.FieldOf(info, x) != nil {
+								out[x.Sel.Name] = true
+								return false
+							}
+							if callee, isF := info.ObjectOf(x.Sel).(*types.Func); isF {
+								rd := readsOf(callee, 0)
+								if rd["*"] || len(rd) == 0 {
+									out[id.Name] = true
+								}
+								for k := range rd {
+									if k != "*" {
+										out[k] = true
+									}
+								}
+								return false
+							}
+						}
+					}
+				case *ast.Ident:
+					o := info.ObjectOf(x)
+					if o == nil {
+						return true
+					}
+					if isInput[o] {
+						if !(o == types.Object(sig.Recv()) && configRecv[core.RecvTypeName(sig)]) {
+							out[x.Name] = true
+						}
+						return true
+					}
+					if ds, ok := defs[o]; ok && !seen[o] {
+						seen[o] = true
+						for _, d := range ds {
+							if a := defStmt[d]; a != nil {
+								if i, tracked := sinkIdx[a]; tracked && curMask&(1<<uint(i)) == 0 {
+									continue // an accumulation this path has not passed
+								}
+							}
+							dep(d, seen, out)
+						}
+					}
+				}
+				return true
+			})
+		}
+		type retInfo struct {
+			ret    *ast.ReturnStmt
+			deps   map[string]bool
+			pinned map[string]bool
+			cond   string
+			tabled []string
+		}
+		var rets []retInfo
+		// seen-set stores M[k] = true on a map to bool
+		seenStores := map[string]bool{}
+		// sinks: statements that hand rendered text to the caller through a reference parameter (a map or slice that is
+		// filled, a builder that is written); at most 6 per function are threaded along the paths.
+		var sinks []ast.Node
+		outParam := map[string]bool{}
+		refParam := func(e ast.Expr) bool {
+			root := core.RootIdent(e)
+			if root == nil {
+				return false
+			}
+			o := info.ObjectOf(root)
+			if !isInput[o] {
+				return false
+			}
+			switch o.Type().Underlying().(type) {
+			case *types.Map, *types.Slice, *types.Pointer:
+				outParam[o.Name()] = true
+				return true
+			}
+			return false
+		}
+		ast.Inspect(fd.Decl.Body, func(nd ast.Node) bool {
+			switch x := nd.(type) {
+			case *ast.FuncLit:
+				return false
+			case *ast.AssignStmt:
+				for i, l := range x.Lhs {
+					if ix, ok := ast.Unparen(l).(*ast.IndexExpr); ok && len(x.Rhs) == len(x.Lhs) {
+						if mt, isMap := info.TypeOf(ix.X).Underlying().(*types.Map); isMap {
+							if b, isB := mt.Elem().Underlying().(*types.Basic); isB && b.Info()&types.IsBoolean != 0 {
+								if id, isId := ast.Unparen(x.Rhs[i]).(*ast.Ident); isId && id.Name == "true" {
+									seenStores[core.ExprStr(ix)] = true
+									continue
+								}
+							}
+						}
+					}
+					if _, isId := ast.Unparen(l).(*ast.Ident); !isId && refParam(l) {
+						sinks = append(sinks, x)
+						break
+					}
+				}
+			case *ast.ExprStmt:
+				if c, ok := x.X.(*ast.CallExpr); ok {
+					hit := false
+					if se, isSe := ast.Unparen(c.Fun).(*ast.SelectorExpr); isSe && refParam(se.X) && info.Selections[se] != nil {
+						hit = true
+					}
+					for _, a := range c.Args {
+						if refParam(a) {
+							hit = true
+						}
+					}
+					if hit {
+						sinks = append(sinks, x)
+					}
+				}
+			}
+			return true
+		})
+		var accList []*ast.AssignStmt
+		for a := range accum {
+			accList = append(accList, a)
+		}
+		sort.Slice(accList, func(i, j int) bool { return accList[i].Pos() < accList[j].Pos() })
+		for _, a := range accList {
+			sinks = append(sinks, a)
+		}
+		if len(sinks) > 6 {
+			sinks = sinks[:6]
+		}
+		// an accumulation nested in a loop: a return placed after the loop counts it (the zero-iteration path is the
+		// one where the ranged collection is empty; a body path that skips the accumulation is rule C09-emit's subject)
+		loopEnd := map[int]token.Pos{}
+		var loopStack []ast.Node
+		var visit func(n ast.Node) bool
+		visit = func(n ast.Node) bool {
+			switch x := n.(type) {
+			case *ast.ForStmt, *ast.RangeStmt:
+				loopStack = append(loopStack, x)
+				var body *ast.BlockStmt
+				if f, ok := x.(*ast.ForStmt); ok {
+					body = f.Body
+				} else {
+					body = x.(*ast.RangeStmt).Body
+				}
+				ast.Inspect(body, visit)
+				loopStack = loopStack[:len(loopStack)-1]
+				return false
+			case *ast.AssignStmt:
+				if len(loopStack) > 0 {
+					for i, sk := range sinks {
+						if sk == ast.Node(x) {
+							loopEnd[i] = loopStack[0].End()
+						}
+					}
+				}
+			case *ast.ExprStmt:
+				if len(loopStack) > 0 {
+					for i, sk := range sinks {
+						if sk == ast.Node(x) {
+							loopEnd[i] = loopStack[0].End()
+						}
+					}
+				}
+			}
+			return true
+		}
+		ast.Inspect(fd.Decl.Body, visit)
+		sinkIdx = map[*ast.AssignStmt]int{}
+		for i, sk := range sinks {
+			if a, ok := sk.(*ast.AssignStmt); ok && accum[a] {
+				sinkIdx[a] = i
+			}
+		}
+		w := facts.NewWalker(info)
+		w.Inline = true
+		if len(sinks) > 0 {
+			w.Transfer = func(st int, n ast.Node, f facts.Formula) int {
+				for i, sk := range sinks {
+					hit := false
+					switch x := sk.(type) {
+					case *ast.ExprStmt:
+						hit = n == x.X
+					case *ast.AssignStmt:
+						hit = n == ast.Node(x)
+					}
+					if hit {
+						return st | 1<<uint(i)
+					}
+				}
+				return st
+			}
+		}
+		// the facts under which each threaded statement runs: a path that reaches a later return without having passed
+		// it has falsified its guard (the walker's facts are merged at joins, the path states are not)
+		guard := map[int][]facts.Formula{}
+		w.AtNode = func(n ast.Node, states uint64, f facts.Formula) {
+			for i, sk := range sinks {
+				hit := false
+				switch x := sk.(type) {
+				case *ast.ExprStmt:
+					hit = n == x.X
+				case *ast.AssignStmt:
+					hit = n == ast.Node(x)
+				}
+				if hit {
+					if _, done := guard[i]; !done {
+						guard[i] = facts.Conjuncts(f)
+					}
+				}
+			}
+		}
+		w.OnExit = func(st int, ret *ast.ReturnStmt, f facts.Formula) {
+			if w.FuncLitDepth > 0 || ret == nil {
+				return
+			}
+			if IsErrorReturn(p, w, fd.Obj, ret, f) {
+				return
+			}
+			if !facts.Satisfiable(f) {
+				return // infeasible path
+			}
+			if inExhaustiveDefault(info, fd.Decl.Body, ret) {
+				return // default clause of a switch that handles every declared constant of the tag's type
+			}
+			curMask = st
+			for i, end := range loopEnd {
+				if ret.Pos() > end {
+					curMask |= 1 << uint(i)
+				}
+			}
+			st = curMask
+			for i, sk := range sinks {
+				if st&(1<<uint(i)) != 0 || ret.Pos() < sk.End() {
+					continue
+				}
+				var open []facts.Formula
+				for _, g := range guard[i] {
+					if !facts.Entails(f, g) {
+						open = append(open, g)
+					}
+				}
+				if _, walked := guard[i]; walked && len(open) == 0 {
+					return // this path state skipped a statement whose guard holds here: infeasible
+				}
+				if len(open) == 1 {
+					f = facts.MkAnd(f, facts.MkNot(open[0]))
+				}
+			}
+			if !facts.Satisfiable(f) {
+				return
+			}
+			ri := retInfo{ret: ret, deps: map[string]bool{}, pinned: map[string]bool{}, cond: facts.StripVersions(facts.String(f))}
+			if len(ret.Results) == 0 {
+				// named results
+				for i := 0; i < sig.Results().Len(); i++ {
+					if v := sig.Results().At(i); v.Name() != "" {
+						if ds, ok := defs[v]; ok {
+							for _, d := range ds {
+								if a := defStmt[d]; a != nil {
+									if i, tracked := sinkIdx[a]; tracked && curMask&(1<<uint(i)) == 0 {
+										continue
+									}
+								}
+								dep(d, map[types.Object]bool{v: true}, ri.deps)
+							}
+						}
+					}
+				}
+			}
+			for _, e := range ret.Results {
+				dep(e, map[types.Object]bool{}, ri.deps)
+			}
+			for i, sk := range sinks {
+				if a, isA := sk.(*ast.AssignStmt); isA && accum[a] {
+					continue
+				}
+				if st&(1<<uint(i)) != 0 {
+					dep(sk, map[types.Object]bool{}, ri.deps)
+				}
+			}
+			// pins: atoms that fix an input (or a local computed from inputs)
+			for _, a := range facts.Atoms(f) {
+				if !facts.Entails(f, facts.Atom(a)) && !facts.Entails(f, facts.Not{X: facts.Atom(a)}) {
+					continue
+				}
+				{
+					neg := ""
+					if !facts.Entails(f, facts.Atom(a)) {
+						neg = "!"
+					}
+					if e, ok := pinTable[fd.Key()+" | "+neg+positional(facts.StripVersions(a), sig)]; ok {
+						pin := e.pins
+						if strings.HasPrefix(pin, "param#") {
+							k, _ := strconv.Atoi(strings.TrimPrefix(pin, "param#"))
+							if k < sig.Params().Len() {
+								pin = sig.Params().At(k).Name()
+							}
+						}
+						ri.pinned[pin] = true
+						ri.tabled = append(ri.tabled, e.why)
+					}
+				}
+				kind, path, _ := strings.Cut(a, ":")
+				if kind == "b" && facts.Entails(f, facts.Atom(a)) && seenStores[facts.StripVersions(path)] {
+					ri.pinned["*"] = true // already emitted: the same function marks the key as seen when it renders it
+					continue
+				}
+				switch kind {
+				case "nil", "empty", "len", "eq", "b":
+				default:
+					continue
+				}
+				if kind == "b" && strings.ContainsAny(path, "(") {
+					continue // an opaque predicate does not pin its argument
+				}
+				if kind == "eq" && strings.Contains(path, "(") && !strings.Contains(path, ".Size()==0") && !strings.HasPrefix(path, "len(") {
+					continue
+				}
+				// negative facts pin only for nil/empty/b (a value known to be non-empty still varies): only positive
+				// len/eq pins count; nil/empty/b count both ways when they decide the alternative rendering
+				if kind != "b" && !facts.Entails(f, facts.Atom(a)) {
+					continue
+				}
+				path = facts.StripVersions(path)
+				path = strings.TrimPrefix(path, "len(")
+				for _, v := range params {
+					nm := v.Name()
+					if path == nm || strings.HasPrefix(path, nm+".") || strings.HasPrefix(path, nm+"[") || strings.HasPrefix(path, nm+")") || strings.HasPrefix(path, nm+"=") {
+						if structParam[v] && strings.HasPrefix(path, nm+".") {
+							rest := strings.TrimPrefix(path, nm+".")
+							fldName := rest
+							for i, ch := range rest {
+								if ch == '.' || ch == '[' || ch == ')' || ch == '=' || ch == '(' {
+									fldName = rest[:i]
+									break
+								}
+							}
+							ri.pinned[fldName] = true
+						} else {
+							ri.pinned[nm] = true
+						}
+					}
+				}
+				// a local: pins what it was computed from
+				for o, ds := range defs {
+					nm := o.Name()
+					if path == nm || strings.HasPrefix(path, nm+"=") || strings.HasPrefix(path, nm+")") || strings.HasPrefix(path, nm+".") {
+						for _, d := range ds {
+							dep(d, map[types.Object]bool{o: true}, ri.pinned)
+						}
+					}
+				}
+			}
+			rets = append(rets, ri)
+		}
+		w.WalkBody(fd.Decl.Body, nil)
+		distinct := map[*ast.ReturnStmt]bool{}
+		for _, ri := range rets {
+			distinct[ri.ret] = true
+		}
+		if len(distinct) < 2 {
+			continue
+		}
+		union := map[string]bool{}
+		for _, ri := range rets {
+			for k := range ri.deps {
+				union[k] = true
+			}
+		}
+		for _, ri := range rets {
+			var left []string
+			for k := range union {
+				if outParam[k] {
+					continue // a reference parameter the function fills is an output, not something to render
+				}
+				if !ri.deps[k] && !ri.pinned[k] && !ri.pinned["*"] {
+					left = append(left, k)
+				}
+			}
+			sort.Strings(left)
+			n++
+			if len(left) == 0 && len(ri.tabled) > 0 {
+				r.Add(rule, fmt.Sprintf("%s: a return taken where a tabled condition pins what it leaves out", fd.Key()), p.Pos(ri.ret.Pos()), core.Excepted, strings.Join(ri.tabled, "; "))
+				continue
+			}
+			if len(left) == 0 {
+				r.OK(rule, fmt.Sprintf("%s: every return renders, or is taken where the path pins, each input another return renders", fd.Key()), p.Pos(ri.ret.Pos()), "")
+				continue
+			}
+			r.Bad(rule, fmt.Sprintf("%s: a return leaves out %s", fd.Key(), strings.Join(left, ", ")), p.Pos(ri.ret.Pos()),
+				fmt.Sprintf("`return %s` (under %s) is not computed from %s, which another return of the function renders, and the path condition does not pin it: that part of the computed result is dropped from this output on this path", exprList(ri.ret.Results), ri.cond, strings.Join(left, ", ")))
+		}
+	}
+	r.RuleCounts[rule+"-returns"] = n
+	r.Floor(rule+"-returns", 20)
+}
+
+// positional renders an atom with the parameters of sig by position (param#i / recv), so that tables keyed by atoms do
+// not depend on parameter names.
+func positional(a string, sig *types.Signature) string {
+	repl := map[string]string{}
+	if sig.Recv() != nil && sig.Recv().Name() != "" {
+		repl[sig.Recv().Name()] = "recv"
+	}
+	for i := 0; i < sig.Params().Len(); i++ {
+		if nm := sig.Params().At(i).Name(); nm != "" && nm != "_" {
+			repl[nm] = fmt.Sprintf("param#%d", i)
+		}
+	}
+	var b strings.Builder
+	i := 0
+	isId := func(c byte) bool {
+		return c == '_' || c >= '0' && c <= '9' || c >= 'a' && c <= 'z' || c >= 'A' && c <= 'Z'
+	}
+	for i < len(a) {
+		if isId(a[i]) && !(a[i] >= '0' && a[i] <= '9') {
+			j := i
+			for j < len(a) && isId(a[j]) {
+				j++
+			}
+			w := a[i:j]
+			if to, ok := repl[w]; ok && (i == 0 || a[i-1] != '.') {
+				b.WriteString(to)
+			} else {
+				b.WriteString(w)
+			}
+			i = j
+			continue
+		}
+		b.WriteByte(a[i])
+		i++
+	}
+	return b.String()
+}
+
+// inExhaustiveDefault: ret sits in the default clause of a switch whose tag has a named module type and whose cases name
+// every package-level constant of that type.
+func inExhaustiveDefault(info *types.Info, body *ast.BlockStmt, ret *ast.ReturnStmt) bool {
+	found := false
+	ast.Inspect(body, func(n ast.Node) bool {
+		sw, ok := n.(*ast.SwitchStmt)
+		if !ok || sw.Tag == nil || found {
+			return !found
+		}
+		nt := core.NamedOf(info.TypeOf(sw.Tag))
+		if nt == nil || nt.Obj().Pkg() == nil || !strings.HasPrefix(nt.Obj().Pkg().Path(), core.ModPath) {
+			return true
+		}
+		handled := map[types.Object]bool{}
+		var def *ast.CaseClause
+		for _, c := range sw.Body.List {
+			cc := c.(*ast.CaseClause)
+			if cc.List == nil {
+				def = cc
+			}
+			for _, e := range cc.List {
+				switch x := ast.Unparen(e).(type) {
+				case *ast.Ident:
+					handled[info.ObjectOf(x)] = true
+				case *ast.SelectorExpr:
+					handled[info.ObjectOf(x.Sel)] = true
+				}
+			}
+		}
+		if def == nil || !(def.Pos() <= ret.Pos() && ret.End() <= def.End()) {
+			return true
+		}
+		sc := nt.Obj().Pkg().Scope()
+		total := 0
+		for _, nm := range sc.Names() {
+			if c, isC := sc.Lookup(nm).(*types.Const); isC && types.Identical(c.Type(), nt) {
+				total++
+				if !handled[c] {
+					return true
+				}
+			}
+		}
+		if total > 0 {
+			found = true
+		}
+		return !found
+	})
+	return found
 }
